@@ -285,6 +285,8 @@ def run(tier, seed, replay=None):
                     cases.append("copy name=%s mode=ctor side=c ops=K0 destroy=sc pre=share" % f)
                     cases.append("copy name=%s mode=ctor side=s ops=K1 destroy=cs pre=share" % f)
 
+    cb_replay = [c for c in cases if c.startswith("copyblk")]
+    cases = [c for c in cases if not c.startswith("copyblk")]
     impl = run_impl(cases, 40)
 
     # ---- model cases from the implementation's dumps ----
@@ -478,10 +480,47 @@ def run(tier, seed, replay=None):
     elif mism:
         for m in mism[:3]:
             rep.violation("model and implementation disagree on " + m["what"], dict(m, family=FAMILY), found_input=False)
+    # ---- every registered block type: a generated instance inside a minimal file is copied; the instance in one of
+    # the two files is overwritten in place, the other file must keep writing the same bytes, also after the edited
+    # one is destroyed (state shared below the block level, e.g. behind a pointer member, shows up here)
+    cb_stats = {"cases": 0, "edit_changed_the_edited_side": 0, "generator_timeouts": 0}
+    if not replay or cb_replay:
+        import blocks_engine as be
+        binfo = vlib.gen_ir(("Cur",))["Cur"]
+        if replay:
+            cbcases = cb_replay
+        else:
+            cvers = ("OB", "SSE", "FO4") if tier == "quick" else tuple(be.VERS)
+            cbcases = ["copyblk type=%s ver=%s seed=%d" % (n, be.VERS[v], seed) for n in binfo["blocks"] for v in cvers]
+            # self-similar payloads need larger enum values than the default generator yields (NiCollisionData's UNION_BV = 4)
+            cbcases += ["copyblk type=NiCollisionData ver=%s seed=%d maxc=5" % (be.VERS[v], seed + k) for v in cvers for k in range(40 if tier == "quick" else 200)]
+        cres = be.par_run(vlib.build_oracle("asan"), "blocks", cbcases, timeout=300)
+        for c, l, crash in cres:
+            if crash is not None or l is None:
+                if crash and "timeout" in str(crash.get("stderr", "")):
+                    cb_stats["generator_timeouts"] += 1
+                    continue
+                rep.violation("copying a file holding a generated block instance, editing one side and destroying it aborted under the sanitizers",
+                              {"case": c, "family": "blocks", "crash": {"rc": (crash or {}).get("rc"), "stderr": str((crash or {}).get("stderr", ""))[-3000:]}})
+                continue
+            ckv = be.kv_of(l)
+            if ckv.get("stable") != "1":
+                continue            # the instance is not a fixed point of the raw save (C02's subject): nothing to compare with
+            cb_stats["cases"] += 1
+            if ckv.get("changed1") == "1":
+                cb_stats["edit_changed_the_edited_side"] += 1
+            bad = [k for k in ("same1", "same2") if ckv.get(k) != "1"]
+            shared = [k for k in ("kept1", "kept1d", "kept2", "kept2d") if ckv.get(k) != "1"]
+            if bad:
+                rep.violation("the copy of a model does not save to the bytes of its source (block type %s)" % c.split()[1][5:], {"case": c, "family": "blocks", "impl": l[:300]})
+            elif shared:
+                rep.violation("copied model is not independent of its source: overwriting a block in one of them changed what the other writes (block type %s: %s)" % (c.split()[1][5:], ",".join(shared)),
+                              {"case": c, "family": "blocks", "impl": l[:300]})
+    stats["copyblk"] = cb_stats
     cov.update({
-        "evaluations": len(cases),
-        "distinct_nontrivial": len(nontriv),
-        "rule": "every sample x {copy constructor, assignment (twice), assignment over another loaded sample} x random edit histories (0-6 ops out of DeleteBlock, AddBlock, SetBlockOrder, prune, delete-by-type, DeleteVertsForShape, SetVertsForShape, SetTextureSlot, DeleteShape, RenameShape) on one side x both destruction orders, plus targeted deletions of geometry data blocks and shared-data variants; non-trivial = the copy holds at least one cached geometry pointer or an edit history was applied or the known defect was reproduced; distinct = distinct case lines",
+        "evaluations": len(cases) + cb_stats["cases"],
+        "distinct_nontrivial": len(nontriv) + cb_stats["edit_changed_the_edited_side"],
+        "rule": "every registered block type x versions: a generated instance in a minimal file, copy (constructor / assignment), in-place overwrite of the instance on one side, the other side's raw save compared before/after and after destruction of the edited side (non-trivial = the overwrite changed the edited side's bytes); every sample x {copy constructor, assignment (twice), assignment over another loaded sample} x random edit histories (0-6 ops out of DeleteBlock, AddBlock, SetBlockOrder, prune, delete-by-type, DeleteVertsForShape, SetVertsForShape, SetTextureSlot, DeleteShape, RenameShape) on one side x both destruction orders, plus targeted deletions of geometry data blocks and shared-data variants; non-trivial = the copy holds at least one cached geometry pointer or an edit history was applied or the known defect was reproduced; distinct = distinct case lines",
         "samples": cases[:3] + cases[len(cases) // 2:len(cases) // 2 + 2] + cases[-2:],
         "input_distribution": stats,
         "traces_validated_against_impl": len(mcases),
